@@ -269,3 +269,181 @@ theorem apply_steps (w : List Inst) (op : Op) (j : Nat) (x : Inst) (hx : w[j]? =
     simp [this]
 
 end Mesa.Steps
+
+namespace Mesa.Steps
+
+/-! ### the bodies one call runs, in closed form -/
+
+/-- the levels that define `step`, with their depths, in MRO order -/
+def ovLevels : Hier → Nat → List (Nat × Level)
+  | [], _ => []
+  | L :: rest, d => if L.overrides then (d, L) :: ovLevels rest (d + 1) else ovLevels rest (d + 1)
+
+theorem ovLevels_depths (h : Hier) (d : Nat) : (ovLevels h d).map (·.1) = overriding h d := by
+  induction h generalizing d with
+  | nil => rfl
+  | cons L rest ih => unfold ovLevels overriding; split <;> simp [ih]
+
+theorem ovLevels_get (h : Hier) (d : Nat) : ∀ p ∈ ovLevels h d, d ≤ p.1 ∧ h[p.1 - d]? = some p.2 ∧ p.2.overrides = true := by
+  induction h generalizing d with
+  | nil => simp [ovLevels]
+  | cons L rest ih =>
+    intro p hp
+    unfold ovLevels at hp
+    split at hp
+    · rename_i ho
+      rcases List.mem_cons.mp hp with rfl | hp
+      · simp [ho]
+      · obtain ⟨h1, h2, h3⟩ := ih (d + 1) p hp
+        refine ⟨by omega, ?_, h3⟩
+        have : p.1 - d = (p.1 - (d + 1)) + 1 := by omega
+        rw [this]; simpa using h2
+    · obtain ⟨h1, h2, h3⟩ := ih (d + 1) p hp
+      refine ⟨by omega, ?_, h3⟩
+      have : p.1 - d = (p.1 - (d + 1)) + 1 := by omega
+      rw [this]; simpa using h2
+
+/-- Which bodies run, without recursion: of the levels that define `step` (MRO order) take those in front of the first
+    one that cannot accept the arguments (`def step(self)` reached with arguments); the bodies that run are these up
+    to and including the first that does not call `super().step(...)`; each sees the same counter and the caller's
+    arguments; the call raises `TypeError` iff there are arguments and every body that ran called super. -/
+def chainSpec (h : Hier) (d : Nat) (args : List Int) (s : Nat) : List Entry × Bool :=
+  let good := (ovLevels h d).takeWhile (fun p => args.isEmpty || p.2.takesArgs)
+  let n := (good.takeWhile (fun p => p.2.callsSuper)).length
+  ((good.take (n + 1)).map (fun p => ⟨p.1, s, args⟩), args.isEmpty || decide (n < good.length))
+
+theorem runChain_eq_chainSpec (h : Hier) (d : Nat) (args : List Int) (s : Nat) :
+    runChain h d args s = chainSpec h d args s := by
+  induction h generalizing d with
+  | nil => simp [runChain, chainSpec, ovLevels]
+  | cons L rest ih =>
+    unfold runChain
+    by_cases ho : L.overrides = true
+    · simp only [ho, Bool.not_true, Bool.false_eq_true, if_false]
+      by_cases hacc : (args.isEmpty || L.takesArgs) = true
+      · have hfw : (if L.takesArgs = true then args else []) = args := by
+          by_cases ht : L.takesArgs = true
+          · simp [ht]
+          · have : args.isEmpty = true := by simpa [ht] using hacc
+            simp [ht, List.isEmpty_iff.mp this]
+        have hguard : (!L.takesArgs && !args.isEmpty) = false := by
+          cases hta : L.takesArgs <;> cases hae : args.isEmpty <;> simp_all
+        simp only [hguard, Bool.false_eq_true, if_false]
+        by_cases hcs : L.callsSuper = true
+        · simp only [hcs, if_true, hfw, ih (d + 1)]
+          simp only [chainSpec, ovLevels, ho, if_true, List.takeWhile_cons, hacc, hcs, List.length_cons,
+            List.take_succ_cons, List.map_cons]
+          simp
+        · have hcs' : L.callsSuper = false := by simpa using hcs
+          simp only [hcs', Bool.false_eq_true, if_false]
+          simp [chainSpec, ovLevels, ho, hacc, hcs']
+      · have hacc' : (args.isEmpty || L.takesArgs) = false := by simpa using hacc
+        have hguard : (!L.takesArgs && !args.isEmpty) = true := by
+          cases hta : L.takesArgs <;> cases hae : args.isEmpty <;> simp_all
+        simp only [hguard, if_true]
+        have hae : args.isEmpty = false := by
+          cases hae : args.isEmpty <;> simp_all
+        have hta : L.takesArgs = false := by
+          cases hta : L.takesArgs <;> simp_all
+        simp [chainSpec, ovLevels, ho, hae, hta]
+    · have ho' : L.overrides = false := by simpa using ho
+      simp only [ho', Bool.not_false, if_true, ih (d + 1)]
+      simp [chainSpec, ovLevels, ho']
+
+/-- the records of `k` successive `step()` calls -/
+def entriesN : Nat → Inst → List Entry
+  | 0, _ => []
+  | k + 1, i => (callStep i []).2.1 ++ entriesN k (callStep i []).1
+
+theorem runModel_entries (f : Nat) (i i' : Inst) (es : List Entry) (h : runModel f i = some (i', es)) :
+    ∃ k, i' = stepN k i ∧ es = entriesN k i ∧ i'.running = false ∧ ∀ j, j < k → (stepN j i).running = true := by
+  induction f generalizing i i' es with
+  | zero => simp [runModel] at h
+  | succ f ih =>
+    unfold runModel at h
+    split at h
+    · rename_i hr
+      simp at h
+      refine ⟨0, h.1.symm, h.2.symm ▸ rfl, ?_, fun j hj => absurd hj (Nat.not_lt_zero _)⟩
+      rw [← h.1]; simpa using hr
+    · rename_i hr
+      dsimp only at h
+      split at h
+      · simp at h
+      · rename_i i'' es' heq
+        simp at h
+        obtain ⟨k, h1, h1e, h2, h3⟩ := ih _ _ _ heq
+        refine ⟨k + 1, ?_, ?_, ?_, ?_⟩
+        · rw [← h.1, h1]; rfl
+        · rw [← h.2, h1e]; rfl
+        · rw [← h.1]; exact h2
+        · intro j hj
+          cases j with
+          | zero => simpa [stepN] using hr
+          | succ j => exact h3 j (by omega)
+
+theorem entriesN_steps (k : Nat) (i : Inst) : ∀ e ∈ entriesN k i, i.steps + 1 ≤ e.steps ∧ e.steps ≤ i.steps + k := by
+  induction k generalizing i with
+  | zero => simp [entriesN]
+  | succ k ih =>
+    intro e he
+    simp only [entriesN, List.mem_append] at he
+    rcases he with he | he
+    · have := runChain_steps i.hier 0 [] (i.steps + 1) e he
+      omega
+    · have := ih (callStep i []).1 e he
+      rw [callStep_steps] at this
+      omega
+
+/-- what an operation does to its own instance depends on that instance alone -/
+theorem apply_local (w w' : List Inst) (op : Op) (h : w[op.target]? = w'[op.target]?) :
+    (apply w op)[op.target]? = (apply w' op)[op.target]? := by
+  cases op with
+  | step i args =>
+    simp only [Op.target] at h ⊢
+    simp only [apply]
+    rw [← h]
+    cases hx : w[i]? with
+    | none => simp [hx, ← h]
+    | some x =>
+      have h' : w'[i]? = some x := by rw [← h]; exact hx
+      have hi := (List.getElem?_eq_some_iff.mp hx).1
+      have hi' := (List.getElem?_eq_some_iff.mp h').1
+      simp [hi, hi']
+  | run i fuel =>
+    simp only [Op.target] at h ⊢
+    simp only [apply]
+    rw [← h]
+    cases hx : w[i]? with
+    | none => simp [hx, ← h]
+    | some x =>
+      have h' : w'[i]? = some x := by rw [← h]; exact hx
+      have hi := (List.getElem?_eq_some_iff.mp hx).1
+      have hi' := (List.getElem?_eq_some_iff.mp h').1
+      cases hr : runModel fuel x with
+      | none => simp [hx, h', hr]
+      | some p => simp [hr, hi, hi']
+  | rearm i k =>
+    simp only [Op.target] at h ⊢
+    simp only [apply]
+    rw [← h]
+    cases hx : w[i]? with
+    | none => simp [hx, ← h]
+    | some x =>
+      have h' : w'[i]? = some x := by rw [← h]; exact hx
+      have hi := (List.getElem?_eq_some_iff.mp hx).1
+      have hi' := (List.getElem?_eq_some_iff.mp h').1
+      simp [hi, hi']
+  | halt i =>
+    simp only [Op.target] at h ⊢
+    simp only [apply]
+    rw [← h]
+    cases hx : w[i]? with
+    | none => simp [hx, ← h]
+    | some x =>
+      have h' : w'[i]? = some x := by rw [← h]; exact hx
+      have hi := (List.getElem?_eq_some_iff.mp hx).1
+      have hi' := (List.getElem?_eq_some_iff.mp h').1
+      simp [hi, hi']
+
+end Mesa.Steps
